@@ -56,9 +56,8 @@ def run(tier):
             pass
         res = progs.run_programs(check, wp, family, behs, table, core.seed(), layouts, progs.VERS[family][:1])
         by = group_and_judge(check, family, res)
-        # programs ending in __halt_compiler ( ) ;  + raw data
-        table2, behs2 = syntax.generate(check, family, rootcat="toplast", rootmax=1, num=30 if tier == "quick" else 200, seed=core.seed() + 9, depth=2)
-        res2 = progs.run_programs(check, wp, family, behs2, table2, core.seed(), layouts, progs.VERS[family][:2])
+        # programs ending in __halt_compiler ( ) ;  + raw data; files of bracketed namespaces
+        res2 = progs.halt_programs(check, wp, family, core.seed(), layouts, progs.VERS[family][:2], num=30 if tier == "quick" else 200)
         group_and_judge(check, family, res2)
         if family == "7":
             g = by[sorted(by)[len(by) // 2]]
